@@ -402,12 +402,29 @@ func (g *vfGen) operand(depth int, inField bool) Expr {
 		}
 		g.raw(")")
 		return c
-	case 3: // negated name / number
+	case 3: // negated name / number / call / parenthesised expression
 		g.raw("-")
-		if g.pick(2) == 0 {
+		switch g.pick(4) {
+		case 0:
 			return &BinaryExpr{Op: MUL, LHS: &IntegerLiteral{Val: -1}, RHS: g.varref()}
+		case 1:
+			return &IntegerLiteral{Val: -int64(g.integer(0, math.MaxInt64))}
+		case 2:
+			name := g.identSimple()
+			g.raw("(")
+			v := g.varref()
+			g.raw(")")
+			return &BinaryExpr{Op: MUL, LHS: &IntegerLiteral{Val: -1}, RHS: &Call{Name: name, Args: []Expr{v}}}
+		default:
+			g.raw("(")
+			l := g.varref()
+			g.sp()
+			g.raw("+")
+			g.sp()
+			r := g.varref()
+			g.raw(")")
+			return &BinaryExpr{Op: MUL, LHS: &IntegerLiteral{Val: -1}, RHS: &ParenExpr{Expr: &BinaryExpr{Op: ADD, LHS: l, RHS: r}}}
 		}
-		return &IntegerLiteral{Val: -int64(g.integer(0, math.MaxInt64))}
 	case 4: // parenthesised
 		g.raw("(")
 		e := g.expr(depth-1, inField)
@@ -443,9 +460,37 @@ func (g *vfGen) expr(depth int, inField bool) Expr {
 	if depth <= 0 {
 		return g.operand(depth, inField)
 	}
-	switch g.pick(3) {
+	switch g.pick(4) {
 	case 0:
 		return g.operand(depth, inField)
+	case 3:
+		// any operator with a negated right operand: -name, -f(name), -(name + name)
+		l := g.varref()
+		op := vfArithOps[vfChoice(len(vfArithOps))]
+		g.sp()
+		g.raw(op.sp)
+		g.sp()
+		g.raw("-")
+		var r Expr
+		switch vfChoice(3) {
+		case 0:
+			r = g.varref()
+		case 1:
+			name := g.identSimple()
+			g.raw("(")
+			r = &Call{Name: name, Args: []Expr{g.varref()}}
+			g.raw(")")
+		default:
+			g.raw("(")
+			a := g.varref()
+			g.sp()
+			g.raw("+")
+			g.sp()
+			b := g.varref()
+			g.raw(")")
+			r = &ParenExpr{Expr: &BinaryExpr{Op: ADD, LHS: a, RHS: b}}
+		}
+		return &BinaryExpr{Op: op.t, LHS: l, RHS: &BinaryExpr{Op: MUL, LHS: &IntegerLiteral{Val: -1}, RHS: r}}
 	case 2:
 		// three operands, two operators, no parentheses: the grouping is decided by the
 		// five precedence levels (reference grouping shared with the C03 harness)
